@@ -393,8 +393,9 @@ def scenario(chk, pr, xvc, idx, rng, forced=None):
             of, after = oracle_after(chk, sb, pr, before, desc)
             fails += of
             if exp is not None and rc == 0:
-                got = {d: canon(c2) for d, c2 in after.items()}
-                want = {d: canon(c2) for d, c2 in exp.items()}
+                # an empty .gitignore and no .gitignore are the same workspace for the model (create+append)
+                got = {d: canon(c2) for d, c2 in after.items() if c2}
+                want = {d: canon(c2) for d, c2 in exp.items() if c2}
                 if got != want:
                     dd = sorted(d for d in set(got) | set(want) if got.get(d) != want.get(d))[0]
                     tie.append((f'{desc}: bytes of {dd or "."}/{GI}', got.get(dd), want.get(dd)))
@@ -425,7 +426,7 @@ def run(chk: Check):
     quick = chk.tier == 'quick'
     ignore_extract.run(chk)
     model = chk.lean('XvcIgnore', 'XvcIgnore.Props.C16', exe='ignoremodel',
-                     extra_modules=['XvcIgnore.Glob', 'XvcIgnore.Pattern', 'XvcIgnore.Walk', 'XvcIgnore.GitIgnore', 'XvcIgnore.Lemmas', 'XvcIgnore.GitLemmas'])
+                     extra_modules=['XvcIgnore.Glob', 'XvcIgnore.Pattern', 'XvcIgnore.Walk', 'XvcIgnore.GitIgnore', 'XvcIgnore.Lemmas', 'XvcIgnore.GitLemmas', 'XvcIgnore.GitMono'])
     impl, _ = c09.build_harness(chk)
     xvc = chk.build_xvc()
     if not os.path.exists(model):
